@@ -15,7 +15,7 @@
     conforms to the declared argument types; when validation accepted the document, the
     observation equals the reference coercion (error <-> nothing called). *)
 From Coq Require Import List NArith ZArith Bool String.
-From ApiFu Require Import Base.Sexp Val.Values Val.FloatExact Val.CoerceModel Val.CoerceSpec Val.CoerceReasons.
+From ApiFu Require Import Base.Sexp Val.Values Val.FloatExact Val.CoerceModel Val.CoerceSpec Val.CoerceReasons Val.BridgeC04.
 Import ListNotations.
 Open Scope string_scope.
 Open Scope list_scope.
@@ -470,6 +470,7 @@ Section Case.
     let var_default := existsb (fun d => match vd_default d with Some _ => true | None => false end) defs in
     (if site_field then ["site-field"] else ["site-directive"]) ++
     (if builtin then ["site-skip-include"] else []) ++
+    (if bridgeable E then ["c04-bridge-evaluated"] else ["c04-bridge-skipped-datetime-longint"]) ++
     (if st then [] else ["static-reject"]) ++
     (if st then match vv with
                 | Ok v => match am with
@@ -555,6 +556,18 @@ Definition check (c : sexp) : sexp :=
                               | Some v => ref_argument_values E dt argdefs (map (fun p => match p with (k, l) => (k, abs_lit v l) end) args)
                               | None => None
                               end in
+                (* C05 x C04: the two transcriptions of validateCoercion agree on every literal *)
+                let bridge_ok :=
+                  negb (bridgeable E)
+                  || (forallb (fun a : name * lit => match aget (fst a) argdefs with
+                                                     | Some d => bridge_agrees E dt (snd a) (in_type d)
+                                                     | None => true
+                                                     end) args
+                      && forallb (fun d => match vd_default d with
+                                           | Some l => negb (type_known E (vd_type d)) || bridge_agrees E dt l (vd_type d)
+                                           | None => true
+                                           end) defs) in
+                if negb bridge_ok then v_mismatch "c04-validator-model-disagrees" [] else
                 match oracle E site_field argdefs args raw o ref_vv ref_am with
                 | Some v => v
                 | None =>
